@@ -136,6 +136,7 @@ where
         let mut user = self
             .users
             .get_user_by_token(token)
+            .filter(|u| u.session.as_ref().map(|s| s.valid()).unwrap_or(false))
             .ok_or(AuthError::InvalidToken)?;
 
         let mut session = user.session.unwrap();
